@@ -428,6 +428,10 @@ class MetaSpec_sequencer_specific(MetaSpec):
     def encode(self, message):
         return list(message.data)
 
+    def check(self, name, value):
+        for byte in value:
+            check_int(byte, 0, 255)
+
 
 def add_meta_spec(klass):
     spec = klass()
